@@ -45,6 +45,7 @@ type Prog struct {
 	ByName map[string]*ssa.Function // "ecs.(*World).Add", "ecs.capacity", ... (first instantiation for generics by full name)
 	CG     *callgraph.Graph
 	sites  map[ssa.CallInstruction][]*ssa.Function
+	inSet map[*ssa.Function]bool
 	// memo
 	modMemo map[*ssa.Function]*ModSet
 }
@@ -157,6 +158,10 @@ func load(cfg Config) (*Prog, error) {
 		p.Funcs = append(p.Funcs, fn)
 	}
 	sort.Slice(p.Funcs, func(i, j int) bool { return p.Funcs[i].String() < p.Funcs[j].String() })
+	p.inSet = map[*ssa.Function]bool{}
+	for _, fn := range p.Funcs {
+		p.inSet[fn] = true
+	}
 	for _, fn := range p.Funcs {
 		n := p.FuncName(fn)
 		if _, ok := p.ByName[n]; !ok {
@@ -256,7 +261,7 @@ func (p *Prog) Callees(site ssa.CallInstruction) (fns []*ssa.Function, boundary 
 		}
 	}
 	if sc := c.StaticCallee(); sc != nil {
-		return []*ssa.Function{sc}, false
+		return []*ssa.Function{p.canon(sc)}, false
 	}
 	out := p.sites[site]
 	sort.Slice(out, func(i, j int) bool { return out[i].String() < out[j].String() })
@@ -373,4 +378,20 @@ func recvTypeName(e ast.Expr) string {
 		return recvTypeName(x.X)
 	}
 	return ""
+}
+
+// canon maps an instantiation that is not part of the analysed set (a generic body calling another
+// generic function with its own type parameters) to its generic origin, which is.
+func (p *Prog) canon(fn *ssa.Function) *ssa.Function {
+	if fn == nil {
+		return nil
+	}
+	if o := fn.Origin(); o != nil {
+		if _, ok := p.inSet[fn]; !ok {
+			if _, ok2 := p.inSet[o]; ok2 {
+				return o
+			}
+		}
+	}
+	return fn
 }
